@@ -422,6 +422,10 @@ func runInBubble(t *testing.T, plan *Plan, opt RunOpts, res *RunResult) {
 // nontrivial: at least one route was installed or message exchanged, and at least one
 // fault or scheduling alternative actually fired.
 func nontrivial(w *World) bool {
+	// engines without a network (ribsim) state their own rule
+	if v, ok := w.Data["nontrivial"].(bool); ok {
+		return v
+	}
 	e := w.Env
 	st := e.Sim.Stats()
 	activity := len(e.writes) > 2
@@ -433,9 +437,12 @@ func nontrivial(w *World) bool {
 // hit, final session states and message type sequence per connection.
 func shapeHash(w *World) string {
 	h := fnv.New64a()
+	if v, ok := w.Data["shape"].(string); ok {
+		fmt.Fprint(h, v)
+	}
 	if w.Plan != nil {
 		for _, s := range w.Plan.Steps {
-			fmt.Fprintf(h, "%s/%d/%d;", s.Kind, s.Peer, len(s.Pfx))
+			fmt.Fprintf(h, "%s/%s/%d/%d;", s.Kind, s.Label, s.Peer, len(s.Pfx))
 		}
 	}
 	var ks []string
